@@ -1,4 +1,5 @@
 import SamlModel.Model.Callback
+import SamlModel.Props.CallbackGen
 import SamlModel.Model.FactsUtil
 set_option linter.unusedSimpArgs false
 set_option linter.unusedVariables false
@@ -227,10 +228,48 @@ theorem C01_history (ops : List SysOp) (id : String) (entity : Option String) (u
     · rw [List.getElem?_eq_none hcn] at hc; cases hc
   exact ⟨n, m, r, hnm, hm, ha, hc⟩
 
+/-! ## The same statements over the regenerated code
+
+  `loginResponse` is regenerated from login.go on every run (`Gen.IdentityProvider_loginResponse`); Props.CallbackGen
+  links it to the callback model.  Restated here as obligations of this property. -/
+
+/-- **the gate, on the generated function itself**: for every provider value, every `Response` and every answer of the
+    other oracles, the generated `loginResponse` hands back a response only if `Done()` answered true; otherwise its
+    result is the error `AuthnFailed` and nothing else was computed from user data -/
+theorem C01_generated_gate (o : Gen.Ora) (p : Option Gen.provider_IdentityProvider) (resp : Option Gen.provider_Response)
+    (h : o.m_Done = false) :
+    Gen.IdentityProvider_loginResponse o p () resp = .ok (none, some Consts.statusAuthnFailed, resp) := by
+  simp [Gen.IdentityProvider_loginResponse, Gen.IdentityProvider_loginResponse.body, Go.Ctl.toRes, h, Consts.statusAuthnFailed]
+
+/-- whenever the generated `loginResponse` returns an error, the callback model's reply is a failed Response with exactly
+    that status, no assertion, unsigned -/
+theorem C01_generated_failure (o : Gen.Ora) (cfg : Gen.provider_IdentityProviderConfig) (fmt : String) (exp : Int)
+    (issuer id : String) (rec : Callback.Rec) (aud : String) (ids : Nat → String) (hid : id ≠ "")
+    (hdone : o.m_Done = rec.done) (hsome : (CallbackGen.userinfo o).1 = none → (CallbackGen.userinfo o).2.isSome)
+    (status : String) (r' : Option Gen.provider_Response)
+    (hgen : Gen.IdentityProvider_loginResponse o (CallbackGen.idp cfg fmt exp) () (some (CallbackGen.respOf issuer rec aud)) = .ok (none, some status, r')) :
+    ∃ m, Callback.callback o (CallbackGen.inOf o cfg fmt exp issuer id rec aud ids) =
+        .reply (Callback.deliver rec.acs rec.binding rec.relay) m .none ∧
+      m.status = status ∧ m.assertion = none ∧ m.inResponseTo = rec.reqID ∧ m.destination = rec.acs ∧ m.issuer = issuer :=
+  CallbackGen.generated_failure o cfg fmt exp issuer id rec aud ids hid hdone hsome status r' hgen
+
+/-- whenever the generated `loginResponse` returns a response, it is the Success message the callback model delivers,
+    and the stored request was completed -/
+theorem C01_generated_success (o : Gen.Ora) (cfg : Gen.provider_IdentityProviderConfig) (fmt : String) (exp : Int)
+    (issuer id : String) (rec : Callback.Rec) (aud : String) (ids : Nat → String) (hid : id ≠ "")
+    (hdone : o.m_Done = rec.done) (hsome : (CallbackGen.userinfo o).1 = none → (CallbackGen.userinfo o).2.isSome)
+    (hid0 : ids 0 = o.newID "Response_makeAssertionResponse" 0) (hid1 : ids 1 = o.newID "makeAssertion" 0)
+    (r : Gen.samlp_ResponseType) (r' : Option Gen.provider_Response)
+    (hgen : Gen.IdentityProvider_loginResponse o (CallbackGen.idp cfg fmt exp) () (some (CallbackGen.respOf issuer rec aud)) = .ok (some r, none, r')) :
+    Callback.callback o (CallbackGen.inOf o cfg fmt exp issuer id rec aud ids) =
+      .reply (Callback.deliver rec.acs rec.binding rec.relay) (Builders.msgOf r (Builders.assertionOf r.Assertion))
+        (Callback.sigStyle rec.acs rec.binding) ∧ rec.done = true :=
+  CallbackGen.generated_success o cfg fmt exp issuer id rec aud ids hid hdone hsome hid0 hid1 r r' hgen
+
 theorem C01_source_current : Consts.current = true ∧
-    FactsUtil.sameHashes ["provider.IdentityProvider.callbackHandleFunc", "provider.IdentityProvider.loginResponse",
+    FactsUtil.sameHashes ["provider.IdentityProvider.callbackHandleFunc",
       "provider.IdentityProvider.errorResponse",
-      "provider.createSignature",
+      
       "provider.Response.sendBackResponse"] = true := ⟨by decide, by decide⟩
 
 /-- non-vacuity: a done record with all oracles succeeding yields a signed Success reply; a pending one AuthnFailed -/
